@@ -196,6 +196,40 @@ func c15Version(c *Ctx, scope []*ssa.Function) bool {
 				break
 			}
 		}
+		if !ok && len(b.Preds) > 0 {
+			// ... or over `element == vers` edges, the element taken from a package-level constant array all of whose
+			// entries are implemented versions, which nothing in the package writes
+			ok = true
+			for _, p := range b.Preds {
+				ifi, isIf := lastIf(p)
+				if !isIf || p.Succs[0] != b {
+					ok = false
+					break
+				}
+				bo, isBo := ifi.Cond.(*ssa.BinOp)
+				if !isBo || bo.Op != token.EQL {
+					ok = false
+					break
+				}
+				el := bo.X
+				if bo.X == v {
+					el = bo.Y
+				} else if bo.Y != v {
+					ok = false
+					break
+				}
+				vals, isTab := constArrayElems(c, "gmtls", stripConvAll(el))
+				if !isTab || len(vals) == 0 {
+					ok = false
+					break
+				}
+				for _, k := range vals {
+					if !known[k] {
+						ok = false
+					}
+				}
+			}
+		}
 		if !ok {
 			okAll = false
 		}
@@ -911,4 +945,68 @@ func c06SuiteFlags(c *Ctx) {
 		}
 		c.Check(len(bad) == 0, rule, "gmtls suite "+r.id, "flags and key agreement agree with the registered name", "", strings.Join(bad, "; "), r.pos)
 	}
+}
+
+// constArrayElems: v is an element of a package-level array variable (read directly or through the copy a range loop
+// makes) whose initialiser is a literal of constants and that no function of the package stores into; returns the
+// constants
+func constArrayElems(c *Ctx, pkg string, v ssa.Value) ([]int64, bool) {
+	var g *ssa.Global
+	switch x := v.(type) {
+	case *ssa.Index:
+		if ld, ok := x.X.(*ssa.UnOp); ok && ld.Op == token.MUL {
+			g, _ = ld.X.(*ssa.Global)
+		}
+	case *ssa.UnOp:
+		if ia, ok := x.X.(*ssa.IndexAddr); ok && x.Op == token.MUL {
+			g, _ = ia.X.(*ssa.Global)
+		}
+	}
+	if g == nil {
+		return nil, false
+	}
+	// never written outside its initialiser
+	for _, f := range c.P.RepoFuncs(pkg) {
+		if f.Name() == "init" {
+			continue
+		}
+		written := false
+		instrsOf(f, func(_ *ssa.BasicBlock, in ssa.Instruction) {
+			st, ok := in.(*ssa.Store)
+			if !ok {
+				return
+			}
+			switch a := st.Addr.(type) {
+			case *ssa.Global:
+				if a == g {
+					written = true
+				}
+			case *ssa.IndexAddr:
+				if a.X == ssa.Value(g) {
+					written = true
+				}
+			}
+		})
+		if written {
+			return nil, false
+		}
+	}
+	e, pk := c.P.findVarInit(pkg, g.Name())
+	cl, ok := e.(*ast.CompositeLit)
+	if !ok || pk == nil {
+		return nil, false
+	}
+	var out []int64
+	for _, el := range cl.Elts {
+		tv, ok := pk.TypesInfo.Types[el]
+		if !ok || tv.Value == nil {
+			return nil, false
+		}
+		b, ok := constBig(tv.Value)
+		if !ok {
+			return nil, false
+		}
+		out = append(out, b.Int64())
+	}
+	return out, true
 }
